@@ -243,8 +243,9 @@ def check_branches(eng, R, rule, cname, fname, target, branch_specs, what="", kn
     ws = [(w[1:] if w.startswith("=") else w, spec) for w, spec in branch_specs]
     node = eng.cnode(f)
     try:
+        # only if the code really branches on the documented conditions (every selected path tests the literal itself)
         per_path = all(extract(f, "store", target, w, node=node) for w, _ in ws) and \
-            len({c for w, _ in ws for c, _, _ in extract(f, "store", target, w, node=node)}) >= len(ws)
+            all(all(lit in c.split(" and ") for lit in ([w] if isinstance(w, str) else w)) for w, _ in ws for c, _, _ in extract(f, "store", target, w, node=node))
     except AnalysisError:
         per_path = False
     if per_path:
